@@ -536,6 +536,13 @@ func c13Scenarios(disk bool) []*schedScenario {
 		},
 		Ops: []schedOp{refreshOp(0), refreshOp(1), c.hs(0, c.L2)},
 	})
+	// on disk the file and database operations are scheduling points as well (what another thread does to the work_dir
+	// can fall between any two of them)
+	if disk {
+		for _, sc := range scs {
+			sc.Cfg.EffectsArePoints = true
+		}
+	}
 	return scs
 }
 
